@@ -258,7 +258,15 @@ def page_json(s, page, field0, kind):
 
 
 def item_id(kind, canon, codec):
-    """recover the scripted id from an item yielded by the pager"""
+    """recover the scripted id from an item yielded by the pager; an item of an unexpected shape (e.g. a bare map key where a
+    (key, value) entry is due) is returned as such, so that it shows up as an item mismatch instead of crashing the harness"""
+    try:
+        return _item_id(kind, canon, codec)
+    except (AttributeError, KeyError, TypeError, ValueError, IndexError):
+        return {"unexpected-item": repr(canon)[:120]}
+
+
+def _item_id(kind, canon, codec):
     if kind in MAP_KINDS:
         v = canon["value"]
         if v.get("kind") == "scalar":
@@ -547,7 +555,7 @@ def t3_service(ctx, r, api, codec, root, svc, svc_full, shapes, model, wmodel, p
                 # order inside one page's map is the map's own; compare page by page as sets, pages in order
                 want_cmp, got_cmp, k = [], [], 0
                 for p in live:
-                    want_cmp.append(sorted(map(exp, p["ids"]))); got_cmp.append(sorted(got[k:k + len(p["ids"])])); k += len(p["ids"])
+                    want_cmp.append(sorted(map(exp, p["ids"]), key=repr)); got_cmp.append(sorted(got[k:k + len(p["ids"])], key=repr)); k += len(p["ids"])
                 got_cmp.append(got[k:]); want_cmp.append([])
             else:
                 want_cmp, got_cmp = want_ids, got
